@@ -278,6 +278,19 @@ def tokio_run(chk, prog, cfg, fn):
                 chk.ob("R1.tokio_cancel", co.path, "the cancelled branch leaves the accept loop with Ok(())", bool(rets) and not loops_back,
                        "after cancellation the accept loop continues", where=co.where(s), cfg=cfg)
     chk.ob("R1.tokio_cancel", co.path, "run() branches on the select outcome", found, "", cfg=cfg)
+    # ... and nothing else ends the accept loop: until the token is cancelled the server keeps accepting, whatever accept() reports
+    cancel_edges = []
+    for s in range(len(co.blocks)):
+        t = co.term(s)
+        if t and t["k"] == "switch":
+            info = switch_info(prog, co, s)
+            if info and info["kind"] == "enum" and "__tokio_select_util::Out" in (info.get("src_ty") or "") and variant in info["edges"]:
+                cancel_edges.append((s, info["edges"][variant]))
+    if cancel_edges and accepts:
+        in_loop = [a for a in accepts if a in co.reachable(co.succs(a))]
+        w = core.must_pass(co, in_loop, core.return_blocks(co), through_edges=cancel_edges) if in_loop else None
+        chk.ob("R1.only_flag_leaves", co.path, "accept loop -> return of run() only through the cancelled branch", w is None,
+               "the tokio accept loop can end although the token was not cancelled (e.g. on an accept() error): the server stops serving before any signal", path=w, cfg=cfg)
     # R7: connection tasks are detached (tokio::spawn, JoinHandle dropped): leaving run() does not abort responses in flight
     sp = co.calls_to(r"^tokio::spawn$|^tokio::task::spawn$")
     chk.floor("tokio::spawn dispatch in run()", len(sp), 1)
